@@ -34,6 +34,10 @@ def configs(tier, seed):
             cc = dict(c)
             cc.update(harness="tls", name="tls-%s-v%d" % (c["name"], ipv), ipv=ipv, seg_size=rnd.choice([5, 6, 9]), records=2, max_len=2, min_len=1)
             out.append(cc)
+            if ipv == 4:
+                cm = dict(cc)
+                cm.update(name=cc["name"] + "-metadata", exp_meta=True)
+                out.append(cm)
     seenq = set()
     for c in c02.configs(tier, seed):
         feat = c["name"].split("-", 1)[1]
@@ -133,12 +137,23 @@ def _run_tls(cfg):
                 owners.append((idx, t))
                 k += 1
         try:
-            out, sessions = P.run_tls(mods, frames, P.keylog_objects(mods, keylog))
+            out, sessions = P.run_tls(mods, frames, P.keylog_objects(mods, keylog), exp_meta=bool(cfg.get("exp_meta")))
         except Exception as e:
             import traceback
             c.fail("no-exception", "%s: %s %s" % (type(e).__name__, e, traceback.format_exc().splitlines()[-3:-1]))
             return {"outcome": "exception"}
         c.check(True, "no-exception")
+        if cfg.get("exp_meta"):
+            # with -a the first exported record is the ClientHello: the synthetic handshake carries the time of one of its packets,
+            # and every exported packet the time of some input packet of the connection
+            first = [t for i, t in owners if i == 0]
+            alltimes = [t for i, t in owners]
+            ok = len(out) >= 5 and all(str(out[k][0].layer("TCP").flags) == f for k, f in enumerate(("S", "SA", "A")))
+            if not c.check(ok, "tls-endpoints-oriented", "output does not open with the synthetic handshake (%d packets)" % len(out)):
+                return {"outcome": "shape"}
+            c.check(sym_and(*[sym_or(*[out[k][1] == m for m in first]) for k in range(3)]), "tls-handshake-time")
+            c.check(sym_and(*[sym_or(*[ts == m for m in alltimes]) for fr, ts in out]), "tls-times-from-overlapping-packets")
+            return {"outcome": "%d packets with -a" % len(out), "validate": False}
         apps = [(idx, it) for idx, it in enumerate(items) if it.app is not None]
         # expected frame sequence: SYN, SYN-ACK, ACK, then per record its parts (PA + ACK of the peer)
         ori, times = [], []
@@ -439,10 +454,20 @@ def _replay_e2e(cfg, inp):
                 seq[fs] += len(piece)
                 owners.append((idx, t))
                 k += 1
-        r = e2e.run_tlexport(pk, e2e.keylog_text(keylog))
+        r = e2e.run_tlexport(pk, e2e.keylog_text(keylog), args=["-a"] if cfg.get("exp_meta") else [])
         problems += r["problems"]
         apps = [(idx, it) for idx, it in enumerate(items) if it.app is not None]
         fr = [d for d in r["frames"] if d.get("l4") == "tcp"]
+        if cfg.get("exp_meta"):
+            first = [t for i, t in owners if i == 0]
+            alltimes = [t for i, t in owners]
+            for d in fr[:3]:
+                if d["ts"][0] not in first:
+                    problems.append("handshake time %d is not a time of the first exported record (ClientHello) %s" % (d["ts"][0], first))
+            for d in fr:
+                if d["ts"][0] not in alltimes:
+                    problems.append("packet time %d is not the time of an input packet" % d["ts"][0])
+            return {"reproduced": bool(problems), "problems": problems[:4]}
         c_side, s_side = (ep.c_mac, ep.c_ip, ep.c_port), (ep.s_mac, ep.s_ip, ep.s_port)
         for d in fr:
             a = (d["eth_src"], d["src"], d["sport"])
